@@ -30,6 +30,7 @@ class Prop:
     shrink_s = {"quick": 20.0, "thorough": 40.0}
     chunk = 100           # runs per worker job
     chunk_wall = 600      # wall backstop per job (faulthandler kills the worker)
+    run_wall = 60         # wall backstop per run (raises a harness error, never a violation)
 
     # ---- per-run configuration (JSON-able; stored in replay files) -------------
     def configure(self, rng, tier):
